@@ -308,6 +308,16 @@ func (s *Spec) CanonKey() string {
 	c := s.Clone()
 	sort.Strings(c.TypesP)
 	sort.Strings(c.TypesR)
+	// "$document" is shorthand for five document-level options.
+	var docs []string
+	for _, o := range c.DocOpts {
+		if o == "document" {
+			docs = append(docs, "elemhide", "jsinject", "urlblock", "content", "extension")
+		} else {
+			docs = append(docs, o)
+		}
+	}
+	c.DocOpts = docs
 	sort.Strings(c.DocOpts)
 	c.DocOpts = dedupSorted(c.DocOpts)
 	c.TypesP = dedupSorted(c.TypesP)
